@@ -32,6 +32,14 @@ pub struct Case {
     pub read_bot_first: bool,
 }
 
+pub fn tok_eq_pub(a: &DataToken, b: &DataToken) -> bool {
+    tok_eq(a, b)
+}
+
+pub fn tok_kind_pub(t: &DataToken) -> &'static str {
+    tok_kind(t)
+}
+
 fn tok_eq(a: &DataToken, b: &DataToken) -> bool {
     use DataToken::*;
     match (a, b) {
